@@ -83,6 +83,8 @@ def compare_projected(scen, impl_out, model_out, projectfn):
         return 'harnessError: ' + impl_out['harnessError']
     if isinstance(impl_out, dict) and 'classCreateError' in impl_out:
         return None
+    if isinstance(model_out.get('out'), dict) and model_out['out'].get('skip'):
+        return None     # a stream observed on the implementation only
     m, i = projectfn(model_out.get('out')), projectfn(impl_out)
     cm, ci = canon(m), canon(i)
     if scen['op'] in ('roundtrip', 'convert2') and has_set_type(scen):
